@@ -4,6 +4,9 @@ package h
 
 import (
 	"fmt"
+	"os"
+	"path/filepath"
+	"strings"
 
 	"github.com/rminnich/go9p"
 	"github.com/rminnich/go9p/vsim/rt"
@@ -27,6 +30,14 @@ func c11Gen(seed uint64, run int, tier string) *Case {
 	c.Cfg["cutwhen"] = int64(r.Pick(0, 1, 1, 2)) // 0: at a drawn step, 1: at first quiescence (requests parked), 2: after everything was answered
 	c.Cfg["cutstep"] = int64(r.Intn(700))
 	c.Stratum = []string{"cut-at-step", "cut-with-requests-parked", "cut-when-idle"}[c.Cfg["cutwhen"]]
+	if run%4 == 3 {
+		// the Unix file server: every file it opened for the connection must be closed again
+		c.Stratum = "ufs-open-files"
+		c.Cfg["ufs"] = 1
+		c.Cfg["cutwhen"] = 0
+		c.Cfg["nfiles"] = int64(r.Range(1, 8))
+		return c
+	}
 	maxHeld := 4
 	maxData := effMsize(c) - IOHDRSZ
 	for ci := 0; ci < 2; ci++ {
@@ -56,7 +67,139 @@ func c11Gen(seed uint64, run int, tier string) *Case {
 	return c
 }
 
+// c11Ufs: a raw client opens, creates and lists files on the real Ufs and is cut at a drawn step,
+// possibly with requests in flight; afterwards no descriptor of the process may point into the tree.
+func c11Ufs(x *Ctx) {
+	c := x.C
+	u := NewUfsSys(x, 8192, true, int(c.cfg("maxpend")), 0)
+	if u == nil {
+		return
+	}
+	defer u.Cleanup()
+	n := int(c.cfg("nfiles"))
+	os.MkdirAll(filepath.Join(u.Root, "d"), 0o755)
+	for i := 0; i < n; i++ {
+		os.WriteFile(filepath.Join(u.Root, fmt.Sprintf("f%d", i)), pattern(200*i, 1, 1, 1), 0o644)
+	}
+	victim := u.Raw(int(c.cfg("seg")))
+	by := u.Raw(int(c.cfg("seg")))
+	cutStep := int(c.cfg("cutstep"))
+	byOK := false
+	rt.Go(rt.SiteSpawn, func() {
+		rt.SetName("bystander")
+		if rawAttach(by.Peer, 8192, true, "") {
+			if r := by.Peer.Call(&Msg{Type: Twalk, Tag: 2, Fid: 0, Newfid: 1, Wname: []string{"f0"}}); r != nil && r.M != nil && r.M.Type == Rwalk {
+				r2 := by.Peer.Call(&Msg{Type: Topen, Tag: 3, Fid: 1, Mode: 0})
+				byOK = r2 != nil && r2.M != nil && r2.M.Type == Ropen
+			}
+		}
+	})
+	rt.Go(rt.SiteSpawn, func() {
+		rt.SetName("victim")
+		p := victim.Peer
+		if !rawAttach(p, 8192, c.cfg("dotu") != 0, "") {
+			return
+		}
+		// stage by stage (requests on one fid are issued one after the other, different fids are pipelined):
+		// walk to every file and to the directory, open them, read them, create a few files; never clunk
+		stage := func(ms []*Msg) bool {
+			for i := 0; i < len(ms); i += 4 {
+				if p.EOF {
+					return false
+				}
+				ss := p.Write(ms[i:minInt(len(ms), i+4)]...)
+				if i+4 >= len(ms) {
+					rt.YieldUntil(rt.SiteActor, func() bool { return allReplied(ss) || p.EOF || victim.Clnt.Closed() })
+				}
+			}
+			rt.YieldUntil(rt.SiteActor, func() bool { return p.Outstanding() == 0 || p.EOF || victim.Clnt.Closed() })
+			return !p.EOF && !victim.Clnt.Closed()
+		}
+		tag := uint16(10)
+		next := func() uint16 { tag++; return tag }
+		var walks, opens, reads, creates []*Msg
+		for i := 0; i < n; i++ {
+			walks = append(walks, &Msg{Type: Twalk, Tag: next(), Fid: 0, Newfid: uint32(10 + i), Wname: []string{fmt.Sprintf("f%d", i)}})
+			opens = append(opens, &Msg{Type: Topen, Tag: next(), Fid: uint32(10 + i), Mode: uint8(i % 3)})
+			reads = append(reads, &Msg{Type: Tread, Tag: next(), Fid: uint32(10 + i), Offset: 0, Count: 100})
+		}
+		walks = append(walks, &Msg{Type: Twalk, Tag: next(), Fid: 0, Newfid: 90, Wname: []string{"d"}})
+		opens = append(opens, &Msg{Type: Topen, Tag: next(), Fid: 90, Mode: 0})
+		reads = append(reads, &Msg{Type: Tread, Tag: next(), Fid: 90, Offset: 0, Count: 4000})
+		for i := 0; i < 3; i++ {
+			walks = append(walks, &Msg{Type: Twalk, Tag: next(), Fid: 0, Newfid: uint32(100 + i), Wname: []string{"d"}})
+			creates = append(creates, &Msg{Type: Tcreate, Tag: next(), Fid: uint32(100 + i), Name: fmt.Sprintf("new%d", i), Perm: 0o644, Mode: 1})
+		}
+		_ = stage(walks) && stage(opens) && stage(append(reads, creates...))
+	})
+	quiet := false
+	rt.Go(rt.SiteSpawn, func() {
+		rt.SetName("cutter")
+		rt.YieldUntil(rt.SiteActor, func() bool { return x.S.Steps >= 150+cutStep || quiet })
+		switch int(c.cfg("cutmode")) {
+		case cutReset:
+			x.Fault("cut-reset")
+			victim.Clnt.Reset()
+		default:
+			x.Fault("cut-eof")
+			victim.Clnt.Close()
+		}
+		if len(victim.Peer.Sent) > len(victim.Peer.Recv) {
+			x.Probe("cut-with-requests-in-flight")
+		}
+	})
+	if !x.Run() {
+		return
+	}
+	quiet = true // everything was answered before the drawn step: cut now
+	if !x.Run() {
+		return
+	}
+	u.CountFaults()
+	// every descriptor Ufs opened for the victim must be closed; the bystander's one file stays open
+	open := 0
+	var names []string
+	if es, err := os.ReadDir("/proc/self/fd"); err == nil {
+		for _, e := range es {
+			if t, err := os.Readlink("/proc/self/fd/" + e.Name()); err == nil && strings.HasPrefix(t, u.Base) {
+				open++
+				names = append(names, strings.TrimPrefix(t, u.Root))
+			}
+		}
+	}
+	want := 0
+	if byOK {
+		want = 1
+	}
+	if *fDump {
+		for _, sn := range victim.Peer.Sent {
+			rep := "no reply"
+			if sn.Reply != nil {
+				rep = sn.Reply.M.String()
+			}
+			dumpf("victim: step %d %s -> %s", sn.Step, sn.M, rep)
+		}
+	}
+	if open > want {
+		x.Violate("d5-fd-left-open", "after the client disconnected %d descriptors of the server still point into the exported tree (the bystander holds %d): %v", open, want, names)
+	}
+	for _, g := range x.S.Goroutines() {
+		if g.DescendsFrom(victim.Host) && !g.Done() {
+			x.Violate("d3-goroutine-left", "goroutine %s serving the disconnected connection never ended: %s", g.ID, x.S.Describe(g))
+		}
+	}
+	if !byOK {
+		x.Violate("d4-bystander", "the bystander connection could not open a file while the victim was being cut")
+	} else if r := by.Peer; r.EOF {
+		x.Violate("d4-bystander", "the bystander connection was dropped")
+	}
+}
+
 func c11Exec(x *Ctx) {
+	if x.C.cfg("ufs") != 0 {
+		c11Ufs(x)
+		return
+	}
 	w := NewSrvWork(x, false)
 	victim := w.sys.Conns[0]
 	cutDone := false
